@@ -65,7 +65,7 @@ def configs(tier, seed):
         if 1 <= p <= 2 and len(pat) >= 3:
             # an explicit tolerance is the one that decides every removal, whichever call carries it
             for t, (tol, call) in enumerate([("1/100000000000000", "clean"), ("1/100000000000000", "knot_clean kw"), ("1/10000", "knot_clean pos"),
-                                             ("1/100000000000000", "degree_clean"), ("1/10000", "clean")]):
+                                             ("1/100000000000000", "degree_clean"), ("1/10000", "clean"), ("0", "clean"), ("0", "degree_clean")]):
                 if tier == "quick" and (t + i + seed) % 2:
                     continue
                 cfgs.append(dict(name=f"arbitrary p={p} mults={pat} tolerance={tol} via {call}", kind="arbitrary", tol=tol, call=call, **base))
@@ -142,7 +142,7 @@ def body(env, cfg):
     # arbitrary curve: idempotence and tolerance
     P = _mixed_points(env, "P", kv.n, {0, min(1, kv.n - 1)}, p + 1)
     c = Curve(list(kv.U), P)
-    tol = F(cfg["tol"]) if cfg.get("tol") else None
+    tol = (0 if cfg["tol"] == "0" else F(cfg["tol"])) if cfg.get("tol") else None
     call = cfg.get("call", "clean")
     if tol is None:
         c.clean()
